@@ -74,6 +74,15 @@ func RenderValue(v zygo.Sexp, d int) string {
 			parts[i] = RenderValue(e, d-1)
 		}
 		return "[" + strings.Join(parts, " ") + "]"
+	case *zygo.SexpHash:
+		// a record (ast.go:KRec) is an array of its field values to the model
+		parts := make([]string, 0, len(x.KeyOrder))
+		for _, k := range x.KeyOrder {
+			if e, err := x.HashGet(nil, k); err == nil {
+				parts = append(parts, RenderValue(e, d-1))
+			}
+		}
+		return "[" + strings.Join(parts, " ") + "]"
 	case *zygo.SexpFunction:
 		s := x.SexpString(nil)
 		// builtins and host functions print as "fn [name]"; closures print their source
